@@ -161,6 +161,12 @@ type rowsType []interface{}
 
 type ptrKey struct{ N int }
 
+// embHolder embeds Base (attrhist.go) by pointer
+type embHolder struct {
+	*Base
+	K int
+}
+
 type selfPtr *selfPtr
 type hiddenMap struct {
 	Name string
@@ -311,6 +317,21 @@ func toGo(v Value) interface{} {
 			for i, x := range v.Xs {
 				if i < 2 {
 					out[i] = Counter{N: x.I}
+				}
+			}
+			return out
+		case "embnils": // []*embHolder: pointers to structs whose embedded pointer is nil (elements: K)
+			out := make([]*embHolder, len(v.Xs))
+			for i, x := range v.Xs {
+				out[i] = &embHolder{K: x.I}
+			}
+			return out
+		case "f64nan": // []float64 with a NaN after the first element (and spare capacity)
+			out := make([]float64, 0, len(v.Xs)+4)
+			for i, x := range v.Xs {
+				out = append(out, numOf(x))
+				if i == 0 {
+					out = append(out, math.NaN())
 				}
 			}
 			return out
